@@ -1,5 +1,9 @@
-"""C12, index half: a history machine over one remote store, one full cache and one persistent
-ObjectDBIndex (obtained through get_index(remote), as index.push / index.fetch do).
+"""C12, index half: a history machine over 1-3 remote stores, one full cache and one persistent
+ObjectDBIndex PER REMOTE (each obtained through get_index(remote), as index.push / index.fetch do; all
+remotes are configured with the SAME tmp_dir, the normal situation for several remotes of one repository, so
+the index names derived from the store locations are what keeps them apart). Every step addresses one drawn
+remote; every clause is evaluated per (remote, its own index) - after every step for ALL remotes, so that
+nothing delivered to / indexed for remote A may show up in remote B's index or answers.
 
 Model (all from direct os.walk listings, never through the code under test):
   ever     = ids ever observed in the remote (after set-up and after every step; objects only ever
@@ -42,7 +46,8 @@ def _world():
     return st.fixed_dictionaries({
         "trees": st.lists(tree, min_size=2, max_size=4),
         "loose": st.lists(content, max_size=2),
-        "remote_kind": st.sampled_from(["generic", "local"]),
+        "remotes": st.sampled_from([["generic"], ["local"], ["generic", "generic"], ["generic", "local"],
+                                    ["local", "generic"], ["local", "local"], ["generic", "local", "generic"]]),
     })
 
 
@@ -127,7 +132,20 @@ _WEIGHTS = (["push"] * 13 + ["fetch"] * 6 + ["status"] * 10 + ["delete_remote"] 
 
 @st.composite
 def _step(draw):
-    return draw(_OPS[draw(st.sampled_from(_WEIGHTS))])
+    op = dict(draw(_OPS[draw(st.sampled_from(_WEIGHTS))]))
+    op["remote"] = draw(st.sampled_from([0, 0, 1, 1, 2]))  # taken modulo the number of remotes
+    return op
+
+
+class Rem:
+    """One remote store with its own index handle and its own delivery history."""
+
+    def __init__(self, kind, root):
+        self.kind = kind
+        self.root = root
+        self.odb = None
+        self.index = None
+        self.ever = set()
 
 
 _STEP = _step()
@@ -144,9 +162,9 @@ class IndexMachine(TraceMachine):
     # ---- set-up / teardown ---------------------------------------------------------------------
     def on_setup(self):
         self.w = None
-        self.index = None
-        self.remote = None
-        self.ever = set()
+        self.rems = []
+        self.cur = 0                    # the remote the current step / invariant evaluation addresses
+        self.touched = set()
         self.labels = set()
         self.disturbed = False          # a failed/aborted transfer or an effective external deletion happened
         self.nontrivial = False         # ... and a status evaluation with the index followed
@@ -157,25 +175,47 @@ class IndexMachine(TraceMachine):
         self.n_idx_aborts = 0
         self.op = "initial"
 
+    # the rule bodies below are written against "the" remote: these resolve to the addressed one
+    remote = property(lambda self: self.rems[self.cur].odb)
+    remote_root = property(lambda self: self.rems[self.cur].root)
+    kind = property(lambda self: self.rems[self.cur].kind)
+    ever = property(lambda self: self.rems[self.cur].ever)
+
+    @property
+    def index(self):
+        return self.rems[self.cur].index if self.rems else None
+
+    @index.setter
+    def index(self, value):
+        self.rems[self.cur].index = value
+
     def _open(self):
+        """(Re)create the store object of the addressed remote and fetch its index the way callers do."""
         from dvc_data.hashfile.db import get_index
 
-        self.remote = ops.make_odb(self.kind, self.remote_root, tmp_dir=self.tmp_dir)
+        rem = self.rems[self.cur]
+        rem.odb = ops.make_odb(rem.kind, rem.root, tmp_dir=self.tmp_dir)
         self.cache = ops.make_odb("local", self.w.cache_root)
-        self.index = get_index(self.remote)
-        assert type(self.index).__name__ == "ObjectDBIndex"
+        rem.index = get_index(rem.odb)
+        assert type(rem.index).__name__ == "ObjectDBIndex"
 
     @initialize(world=_world())
     @traced
     def init(self, world):
         self.w = build_world(self.dir, world["trees"], world["loose"])
-        self.kind = world["remote_kind"]
-        self.remote_root = os.path.join(self.dir, "remote")
-        self.tmp_dir = os.path.join(self.dir, "tmp")
+        kinds = world.get("remotes") or [world["remote_kind"]]  # "remote_kind": replay files of the 1-remote era
+        self.tmp_dir = os.path.join(self.dir, "tmp")  # shared by all remotes
         os.makedirs(self.tmp_dir)
-        self._open()
+        self.rems = [Rem(k, os.path.join(self.dir, "remote" if i == 0 else f"remote{i}"))
+                     for i, k in enumerate(kinds)]
+        for i in range(len(self.rems)):
+            self.cur = i
+            self._open()
+        self.cur = 0
+        assert len({r.index.index_dir for r in self.rems}) == len(self.rems)
         self.universe = sorted(set(self.w.all_ids) | {FAKE_FILE, FAKE_DIR})
-        self.labels.add("remote=" + self.kind)
+        self.labels.update("remote=" + k for k in kinds)
+        self.labels.add(f"remotes={len(kinds)}")
         shared = False
         dirs = sorted(self.w.dir_children)
         for i, a in enumerate(dirs):
@@ -186,9 +226,10 @@ class IndexMachine(TraceMachine):
             self.labels.add("dirs-share-a-file")
 
     def on_cleanup(self):
-        if self.index is not None:
-            self.index.close()
-            self.index = None
+        for rem in self.rems:
+            if rem.index is not None:
+                rem.index.close()
+                rem.index = None
 
     def on_summary(self):
         return Result([], self.nontrivial, sorted(self.labels),
@@ -299,8 +340,13 @@ class IndexMachine(TraceMachine):
     @rule(op=_STEP)
     @traced
     def step(self, op):
-        args = {k: v for k, v in op.items() if k != "op"}
+        args = {k: v for k, v in op.items() if k not in ("op", "remote")}
         self.op = op["op"]
+        if self.rems:
+            self.cur = op.get("remote", 0) % len(self.rems)
+            self.touched.add(self.cur)
+            if len(self.touched) >= 2:
+                self.labels.add("steps-on->=2-remotes")
         getattr(self, "do_" + op["op"])(**args)
 
     def do_push(self, request, form, fail, abort_at, jobs, trees_from, index_abort=None):
@@ -523,12 +569,22 @@ class IndexMachine(TraceMachine):
 
     # ---- invariants after every step -------------------------------------------------------------
     def check_state(self):
-        if self.w is None or self.index is None:
+        if self.w is None or not self.rems or any(r.index is None for r in self.rems):
             return
+        target = self.cur
+        try:
+            for r in range(len(self.rems)):
+                self.cur = r
+                self._check_remote(self.op if r == target else self.op + "@other-remote")
+        finally:
+            self.cur = target
+
+    def _check_remote(self, op):
         now = self.listing()
-        self.ever |= now
+        self.ever.update(now)
         idx = set(self.index)
-        op = self.op
+        if self.cur and idx:
+            self.labels.add("second-remote-indexed")
         vouched = self.ever | self.listed_by(now)
         invented = sorted(idx - vouched)
         if invented:
